@@ -143,7 +143,7 @@ def probe (f : List String) : String :=
     let (cfg, tlsMode) := parseCfg cfgS
     let (plain, tls, e) := parseInput inS
     let s := serve (initState cfg tlsMode (parseBackend beS) plain tls e)
-    let evs := coalesce s.evs.reverse
+    let evs := coalesce (s.evs.reverse.filter fun e => match e with | .tlsStart _ => false | _ => true)
     let ds := (s.drecs.map showDRec).mergeSort (· ≤ ·)
     String.intercalate ";" (evs.map showEv) ++ "\t" ++ String.intercalate ";" ds ++ s!"\tWAC={s.wac}"
   | _ => "DRIVER-BAD-CASE"
